@@ -22,6 +22,7 @@ import (
 	"os"
 	"os/exec"
 	"path/filepath"
+	"runtime"
 	"strconv"
 	"sync"
 	"time"
@@ -55,6 +56,7 @@ type History struct {
 	Snap  uint64          `json:"snap"`  // raft snapshot count
 	Batch uint64          `json:"batch"` // pool batch size
 	ID    uint64          `json:"id"`    // raft id of this replica
+	Procs int             `json:"procs"` // GOMAXPROCS for this history (0 = leave); goroutine start order is schedule dependent
 	Ops   [][]interface{} `json:"ops"`
 }
 
@@ -84,8 +86,48 @@ type Report struct {
 }
 
 type Trace struct {
-	Steps []Step `json:"steps"`
-	Err   string `json:"err,omitempty"`
+	Steps   []Step `json:"steps"`
+	Err     string `json:"err,omitempty"`
+	Changed int    `json:"changed"` // commit events whose content differs at the end of the run from what was read
+}
+
+// seen: every CommitEvent the driver took from Commit(), with its projection at that moment;
+// re-projected at the end of the history ("a delivered event never changes")
+type seenEv struct {
+	ev *pb.CommitEvent
+	b  Block
+}
+
+var seenMu sync.Mutex
+var seenEvs []seenEv
+
+func recordEv(ev *pb.CommitEvent) Block {
+	b := toBlock(ev.Block.BlockHeader.Number, ev.Block.Transactions)
+	seenMu.Lock()
+	seenEvs = append(seenEvs, seenEv{ev, b})
+	seenMu.Unlock()
+	return b
+}
+
+func auditEvs() int {
+	seenMu.Lock()
+	defer seenMu.Unlock()
+	n := 0
+	for _, s := range seenEvs {
+		b := toBlock(s.ev.Block.BlockHeader.Number, s.ev.Block.Transactions)
+		if b.H != s.b.H || len(b.Txs) != len(s.b.Txs) {
+			n++
+			continue
+		}
+		for i := range b.Txs {
+			if b.Txs[i] != s.b.Txs[i] {
+				n++
+				break
+			}
+		}
+	}
+	seenEvs = nil
+	return n
 }
 
 // ---------------------------------------------------------------------------------- helpers
@@ -543,6 +585,8 @@ type raftRun struct {
 	pending    []Block // proposals handed to raft and neither appended nor dropped
 	dropHeight uint64  // the peer leaves this height out of one answer
 	glue       *glueState
+	lag        bool    // the consumer stays away from Commit() (reads only when the node loop is blocked on a full queue)
+	lagbuf     []Block // what it had to take meanwhile, in order
 }
 
 func writeOrderToml(dir string, h History) error {
@@ -651,6 +695,9 @@ func (r *raftRun) takeEvents() []Block {
 		}
 		return ev
 	}
+	if r.lag {
+		return []Block{}
+	}
 	// the loop pushes commit events before the sync point of every op, so they are all in the
 	// channel by now (capacity 1024); read them without waiting
 	ev := []Block{}
@@ -658,7 +705,7 @@ func (r *raftRun) takeEvents() []Block {
 		select {
 		case e := <-r.node.Commit():
 			if e != nil {
-				ev = append(ev, toBlock(e.Block.BlockHeader.Number, e.Block.Transactions))
+				ev = append(ev, recordEv(e))
 			}
 			continue
 		default:
@@ -795,10 +842,29 @@ func (r *raftRun) step(op []interface{}) (Step, error) {
 		case <-time.After(5 * time.Second):
 			return st, fmt.Errorf("ready not taken")
 		}
-		select {
-		case <-r.fake.advc:
-		case <-time.After(10 * time.Second):
-			return st, fmt.Errorf("no advance")
+		waited := 0
+	advance:
+		for {
+			select {
+			case <-r.fake.advc:
+				break advance
+			case <-time.After(2 * time.Millisecond):
+				waited++
+				if r.lag && len(r.node.Commit()) == cap(r.node.Commit()) {
+					// the queue is full and the node loop waits for the consumer: take one block
+					select {
+					case e := <-r.node.Commit():
+						if e != nil {
+							r.lagbuf = append(r.lagbuf, recordEv(e))
+						}
+					default:
+					}
+					waited = 0
+				}
+				if waited > 4000 {
+					return st, fmt.Errorf("no advance")
+				}
+			}
 		}
 		r.sync()
 		st.R = []uint64{lo, hi, app}
@@ -837,6 +903,37 @@ func (r *raftRun) step(op []interface{}) (Step, error) {
 		r.sync()
 		r.dropHeight = 0
 		st.R = []uint64{1, idx, hh}
+	case "ents": // ["ents", n, h0]  n scripted batches with heights h0, h0+1, ... and no transactions
+		n, h0 := num(op[1]), num(op[2])
+		for i := uint64(0); i < n; i++ {
+			r.appendEntry(1, Block{H: h0 + i, Txs: []uint64{}})
+		}
+		st.R = []uint64{n, h0}
+	case "lag": // the consumer stays away from Commit() until "drain"
+		r.lag = true
+		st.R = []uint64{0}
+	case "drain": // the consumer comes back and takes everything, in the order the queue hands it out
+		out := append([]Block{}, r.lagbuf...)
+		r.lagbuf = nil
+		idle := 0
+		for idle < 8 {
+			select {
+			case e := <-r.node.Commit():
+				if e != nil {
+					out = append(out, recordEv(e))
+				}
+				idle = 0
+			case <-time.After(10 * time.Millisecond):
+				idle++
+			}
+		}
+		r.lag = false
+		r.queue = append(r.queue, out...)
+		st.Ev = out
+		st.R = []uint64{uint64(len(out))}
+		st.Prop = r.takeProps()
+		st.St, st.Bai = r.state()
+		return st, nil
 	case "exec": // the executor takes the next commit event
 		if len(r.queue) == 0 {
 			st.R = []uint64{9}
@@ -1016,6 +1113,7 @@ func runRaft(h History, real bool) Trace {
 		close(r.glue.stopC)
 		r.glue.mu.Unlock()
 	}
+	tr.Changed = auditEvs()
 	r.shutdown()
 	return tr
 }
@@ -1046,6 +1144,7 @@ type soloRun struct {
 	queue  []Block
 	blocks map[uint64]Block
 	dead   bool
+	lag    bool // the consumer stays away from Commit()
 }
 
 func (r *soloRun) open() error {
@@ -1069,11 +1168,21 @@ func (r *soloRun) open() error {
 
 func (r *soloRun) events(expect int, wait time.Duration) []Block {
 	out := []Block{}
+	if r.lag {
+		// not reading: wait for lastExec to move instead
+		before := r.node.VerifLastExec()
+		deadline := time.Now().Add(wait)
+		for expect > 0 && r.node.VerifLastExec() == before && time.Now().Before(deadline) {
+			time.Sleep(200 * time.Microsecond)
+		}
+		time.Sleep(300 * time.Microsecond)
+		return out
+	}
 	deadline := time.Now().Add(wait)
 	for {
 		select {
 		case ev := <-r.node.Commit():
-			out = append(out, toBlock(ev.Block.BlockHeader.Number, ev.Block.Transactions))
+			out = append(out, recordEv(ev))
 			continue
 		default:
 		}
@@ -1087,7 +1196,7 @@ func (r *soloRun) events(expect int, wait time.Duration) []Block {
 	for {
 		select {
 		case ev := <-r.node.Commit():
-			out = append(out, toBlock(ev.Block.BlockHeader.Number, ev.Block.Transactions))
+			out = append(out, recordEv(ev))
 			continue
 		default:
 		}
@@ -1131,6 +1240,13 @@ func (r *soloRun) step(op []interface{}) (Step, error) {
 				r.dead = true
 			}
 		}
+	case "lag": // the consumer stays away from Commit() until "drain"
+		r.lag = true
+		st.R = []uint64{0}
+	case "drain":
+		r.lag = false
+		st.Ev = r.events(0, 20*time.Millisecond)
+		st.R = []uint64{uint64(len(st.Ev))}
 	case "prop": // ["prop", h, [txs]]  a batch with a chosen height on the node's proposal channel
 		ok := r.node.VerifPropose(mkBatch(num(op[1]), nums(op[2])), 300*time.Millisecond)
 		if !ok {
@@ -1243,6 +1359,7 @@ func runSolo(h History) Trace {
 		}
 		tr.Steps = append(tr.Steps, st)
 	}
+	tr.Changed = auditEvs()
 	r.node.Stop()
 	return tr
 }
@@ -1373,6 +1490,10 @@ func runOne(line []byte) (interface{}, error) {
 	}
 	if h.Kind == "sync" {
 		return runSync(line), nil
+	}
+	if h.Procs > 0 {
+		old := runtime.GOMAXPROCS(h.Procs)
+		defer runtime.GOMAXPROCS(old)
 	}
 	switch h.Kind {
 	case "raft", "glue":
